@@ -35,7 +35,8 @@ def call_method(I, recv, name, args, kwargs):
     if isinstance(recv, Opt):
         recv = I.unwrap(recv, AttributeError)
     k = kind_of(recv)
-    concrete = not is_sym(recv) and not _has_sym(tuple(args)) and not any(isinstance(a, (Obj, SList, SDict, Opaque)) for a in args)
+    concrete = not is_sym(recv) and not _has_sym(tuple(args)) and not any(isinstance(a, (Obj, SList, SDict, Opaque)) for a in args) \
+        and not any(type(a).__name__ == '_CharSeq' for a in args)
     if k in ('str', 'bytes'):
         if concrete and not kwargs:
             try:
@@ -198,6 +199,10 @@ def str_method(I, recv, k, name, args, kwargs):
         _note(p, 'str.' + name)
         return Sym(k, uf(s, need_str(chars)))
     if name == 'join':
+        if type(a[0]).__name__ == '_CharSeq':
+            if not (isinstance(recv, str) and recv == ''):
+                raise Unsupported('join of a character sequence with a non-empty separator')
+            return Sym('str', a[0].t)
         items = I.iter_items(a[0])
         parts = []
         for i, it in enumerate(items):
